@@ -425,6 +425,13 @@ class SimPopen:
         self.pid = p.pid
         self.returncode = None
         self.stdout = self.stderr = None
+        # stdout/stderr=PIPE: hand circus a real (already at EOF) pipe so that its redirector code runs
+        from subprocess import PIPE
+        for attr, val in (('stdout', stdout), ('stderr', stderr)):
+            if val == PIPE:
+                r, w_ = os.pipe()
+                os.close(w_)
+                setattr(self, attr, os.fdopen(r, 'rb', 0))
         self._gone = False
 
     def poll(self):
